@@ -409,7 +409,12 @@ def plan(tier, seed):
   for nm, _ in _ecdsa_checks(w):
     layouts = 3
     if thorough:
-      szs = list(range(0, 51)) + (SIZE_EDGES if nm != 'CheckLCGNonceJavaUtilRandom' else [])
+      if nm in ('CheckNonceMSB', 'CheckCr50U2f'):
+        szs = list(range(0, 51)) + SIZE_EDGES
+      elif nm == 'CheckLCGNonceJavaUtilRandom':
+        szs = list(range(0, 27)) + [47, 48, 49]
+      else:
+        szs = list(range(0, 51)) + SIZE_EDGES[:9]
     elif nm == 'CheckLCGNonceJavaUtilRandom':
       szs, layouts = [0, 1, 2, 23, 24, 25], 1
     elif nm == 'CheckLCGNonceGMP':
